@@ -28,7 +28,9 @@ def verify(sid):
         if rc != 0:
             res["clean"] = "demo does not compile on the clean tree: " + out[-400:]
             return res
-        rc, out = sh("%s/demo" % wt, timeout=300)
+        os.environ["YOMM2_INCLUDE"] = wt + "/include"      # two-stage demos recompile themselves against the tree under test
+        os.environ["DEMO_SRC"] = sd + "/demo.cpp"
+        rc, out = sh("%s/demo" % wt, cwd=wt, timeout=300)
         res["clean_exit"] = rc
         res["clean_tail"] = out[-200:]
         rc, out = sh("git -C %s apply %s/patch.diff" % (wt, sd))
@@ -40,7 +42,7 @@ def verify(sid):
             res["mutant_exit"] = "compile error"
             res["mutant_tail"] = out[-300:]
         else:
-            rc, out = sh("%s/demo" % wt, timeout=300)
+            rc, out = sh("%s/demo" % wt, cwd=wt, timeout=300)
             res["mutant_exit"] = rc
             res["mutant_tail"] = out[-300:]
         t = time.time()
